@@ -1,7 +1,7 @@
 SPECIFICATION Spec
 CONSTANTS
   MaxLen = 3
-  Srcs = {"task_val", "task_err", "sched_val", "sched_throw", "lcontract_val"}
+  Srcs = {"task_val", "task_err", "task_exc", "sched_val", "sched_throw", "lcontract_val"}
   Atts = {"inline", "e1", "inh"}
   Args = {"V", "E", "X", "R"}
   Behs = {"val", "throw", "res_err", "fut_pending", "task_make", "task_sched"}
